@@ -43,10 +43,10 @@ import (
 //   - arities 0 .. one past the formals (for a variadic operator: none, one and two
 //     forms in its rest): no body at all, one body form, several;
 //   - each form is evaluated as source at top level, in tail position of a named
-//     function (where the recursive call is a self tail call), as argument of a call
-//     inside a function, as non-final body form of a function, in tail position of a
-//     lambda called through funcall, and inside the body of a handler-bind that has a
-//     clause.
+//     function (where the recursive call is a self tail call), and in one (quick) or
+//     all (thorough) of: as argument of a call inside a function, as non-final body
+//     form of a function, in tail position of a lambda called through funcall, inside
+//     the body of a handler-bind that has a clause.
 //
 // Past the enumeration of an operator (and in the thorough tier's surplus) forms are
 // composed at random: operator forms nested in the argument positions of operator
